@@ -147,10 +147,51 @@ Substitute ==
             /\ kase' = Mk("substitute", <<"to_presence", j - 1>>,
                           [H EXCEPT ![j] = Ent("presence", e.prow, e.lo, e.hi, 0, 0, CellsOf(e.prow, e.lo, e.hi))])
 
-Next == Honest \/ RowEdit \/ ShareEdit \/ Substitute
+(* ---- single rows: RowNamespaceData::verify(id(row, namespace), dah), for ANY row (its range may or may *)
+(* ---- not cover the namespace), with the shares and the proof taken from anywhere                      *)
+\* what the row really holds of t
+WantRow(q, r, t) == LET cs == ColsOf(q, r, t) IN IF cs = {} THEN <<>> ELSE CellsOf(r, MinOf(cs), MaxOf(cs) + 1)
+\* algorithmic layer: as RowOk, except that nmt-rs accepts an absence proof unseen when the root's range
+\* does not cover the namespace (so the shares/proof-type guard is what keeps foreign shares out)
+RowVerify(q, e, r, t) ==
+    IF ~Covers(q, r, t) /\ e.kind = "absence"
+    THEN Len(e.shares) = 0
+    ELSE Covers(q, r, t) /\ RowOk(q, e, r, t)
+SingleDemand(q, e, r, t) ==
+    IF Covers(q, r, t) /\ e = HonestEnt(q, r, t) THEN "accept"
+    ELSE IF e.shares = WantRow(q, r, t) THEN "either"
+    ELSE "reject"
 
-NsSound == kase.cls # "init" => Conforms(NsDemand(kase.q, kase.t, kase.es), Verdict(NsCode(kase.q, kase.t, kase.es)))
+MkS(mut, r, e) == [cls |-> "single", mut |-> mut, q |-> kase.q, t |-> kase.t, row |-> r, e |-> e]
+SingleRow ==
+    /\ kase.cls = "init"
+    /\ \E r \in Idx :
+         LET hon == HonestEnt(kase.q, r, kase.t) IN
+         \/ kase' = MkS(<<"own">>, r, hon)
+         \* the entry of another row, as it is
+         \/ \E r2 \in Idx \ {r} : kase' = MkS(<<"of_row", r2>>, r, HonestEnt(kase.q, r2, kase.t))
+         \* the row's own absence-shaped proof (leaf following the namespace) with the shares of t of any row
+         \/ \E r2 \in Idx : WantRow(kase.q, r2, kase.t) # <<>> /\
+               LET p == SuccPos(kase.q, r, kase.t) IN
+               kase' = MkS(<<"absence_with_shares", r2>>, r, Ent("absence", r, p, p + 1, 0, 0, WantRow(kase.q, r2, kase.t)))
+         \* another row's absence proof with shares
+         \/ \E r2 \in Idx, r3 \in Idx \ {r} : WantRow(kase.q, r2, kase.t) # <<>> /\
+               LET p == SuccPos(kase.q, r3, kase.t) IN
+               kase' = MkS(<<"foreign_absence_with_shares", r2, r3>>, r, Ent("absence", r3, p, p + 1, 0, 0, WantRow(kase.q, r2, kase.t)))
+         \* the row's own presence proof with the shares of t of another row
+         \/ \E r2 \in Idx \ {r} : hon.kind = "presence" /\ WantRow(kase.q, r2, kase.t) # <<>> /\
+               kase' = MkS(<<"presence_with_foreign_shares", r2>>, r, [hon EXCEPT !.shares = WantRow(kase.q, r2, kase.t)])
+         \* no shares at all with the row's presence proof / the honest absence proof for a row that has shares
+         \/ hon.kind = "presence" /\ kase' = MkS(<<"presence_without_shares">>, r, [hon EXCEPT !.shares = <<>>])
+
+Next == Honest \/ RowEdit \/ ShareEdit \/ Substitute \/ SingleRow
+
+SingleSound == kase.cls = "single" =>
+    Conforms(SingleDemand(kase.q, kase.e, kase.row, kase.t), Verdict(RowVerify(kase.q, kase.e, kase.row, kase.t)))
+\* the statement for one row: accepted => exactly the shares of t in that row
+SingleOnlyOwn == (kase.cls = "single" /\ RowVerify(kase.q, kase.e, kase.row, kase.t)) => kase.e.shares = WantRow(kase.q, kase.row, kase.t)
+NsSound == kase.cls \notin {"init", "single"} => Conforms(NsDemand(kase.q, kase.t, kase.es), Verdict(NsCode(kase.q, kase.t, kase.es)))
 \* the statement, spelled out
-AcceptOnlyScan == (kase.cls # "init" /\ NsCode(kase.q, kase.t, kase.es)) => Content(kase.es) = Scan(kase.q, kase.t)
+AcceptOnlyScan == (kase.cls \notin {"init", "single"} /\ NsCode(kase.q, kase.t, kase.es)) => Content(kase.es) = Scan(kase.q, kase.t)
 HonestIsScan   == kase.cls = "honest" => (Content(kase.es) = Scan(kase.q, kase.t) /\ NsCode(kase.q, kase.t, kase.es))
 =============================================================================
